@@ -145,6 +145,14 @@ REASONS = [
     (r"^repository::x509::Time::take(_opt)?_from$", r"assert:Overflow:Add", "read_two_char returns at most 99 (two decimal digits)", [], None,
      [("repository::x509::read_two_char", r"is_ascii_digit|Le\(48,|Ge\(.*, 48\)")]),
     (r"^rrdp::Hash::from_data$", r"call:unwrap", "a SHA-256 digest is 32 octets"),
+    (r"^rrdp::NotificationFile::sort_and_verify_deltas$", r"assert:Overflow:Sub|call:drain",
+     "offset = len - limit is computed on the branch limit < len, so it is in 1..=len", [r"^Lt\(%2↓Some\.0, Vec::len\(self\.deltas↓Ok\.0\)\) -> else$"]),
+    (r"^rrdp::NotificationFile::sort_and_verify_deltas$", r"call:index",
+     "the list is non-empty here: it was non-empty on entry and, after the optional drain, the function returns early when "
+     "nothing was retained", [r"2×^Vec::is_empty\(self\.deltas↓Ok\.0\) -> 0$"]),
+    (r"^rrdp::ProcessDelta::process$", r"call:unwrap",
+     "action is set by the element closure before it can return Ok; the unwrap is reached only when take_opt_element returned Some",
+     [r"^discr\(Try::branch\(Content::take_opt_element_with_limit\(.* -> 1$"]),
     (r"^rtr::state::State::new_with_serial$", r"call:unwrap", "fails only when the system clock is before 1970; not input-dependent"),
     (r"^util::base64::Xml::decode_bytes$", r"assert:BoundsCheck", "valid_up_to() < input.len() when from_utf8 fails"),
     (r"^util::hex::encode$", r".",
@@ -172,6 +180,19 @@ LOOPS = [
 def main():
     f = facts.load(build.build_facts("B"))
     dec, acc, types, reach, sites, cl = C04.analyse(f)
+    # the other properties that use the same table (C09: RRDP, C11: CA-protocol XML) look at further entry points
+    from engine.callgraph import CallGraph
+    extra = [n for n, r in f.fns.items() if r.get("has_body") and r.get("exported") and
+             (n.startswith("rrdp::") or n.startswith("<rrdp::") or n.startswith("xml::decode::"))]
+    for n, r in f.fns.items():
+        if r.get("has_body") and re.match(r"^<?(ca::(idexchange|provisioning|publication)|xml::decode)", n[1:] if n.startswith("<") else n):
+            ins = " ".join(r["inputs"])
+            if "xml::decode::" in ins or r["name"] in ("parse", "decode", "from_str", "try_from", "base64_decode", "ascii_into"):
+                extra.append(n)
+    reach2, _ = C04.callback_closure(f, CallGraph(f), extra)
+    seen_sites = {(s.body.name, s.bb) for s in sites}
+    more = [s for s in C04.enumerate_sites(f, reach2) if (s.body.name, s.bb) not in seen_sites]
+    cl = cl + C04.classify(f, more)
     rows, seen, missing = [], set(), []
     for s, rule, why in cl:
         if rule is not None:
@@ -192,9 +213,8 @@ def main():
                     for s2, r2, _ in cl:
                         if r2 is None and s2.key() == key:
                             have = C04.site_guards(f, s2)
-                            for g in guards:
-                                if not any(re.search(g, x) for x in have):
-                                    print("  GUARD DOES NOT MATCH", key[:120], g, have)
+                            for g in C04.guards_missing(guards, have):
+                                print("  GUARD DOES NOT MATCH", key[:120], g, have)
                     row["guards"] = guards
                 if len(ent) > 5:
                     row["remote"] = [{"fn": a, "guard": b} for a, b in ent[5]]
